@@ -130,11 +130,14 @@ pub mod ledger {
         static LOG: RefCell<Vec<(usize, usize, usize, bool)>> = const { RefCell::new(Vec::new()) };
     }
     // The allocator honours the requested alignment *exactly*: a block requested with alignment a < 16 lies at an
-    // address that is a multiple of a but not of 2a (the system allocator would hand out 16-aligned blocks and hide a
+    // address that is a multiple of a but not of 2a (byte buffers of even size: at 8 modulo 16) (the system allocator would hand out 16-aligned blocks and hide a
     // request for too small an alignment). Blocks with a >= 16 come straight from the system allocator.
     fn backing(l: Layout) -> (Layout, usize) {
         if l.align() < 16 {
-            (unsafe { Layout::from_size_align_unchecked(l.size() + 16, 16) }, l.align())
+            // byte buffers (alignment 1): odd addresses for odd sizes, 8-aligned (not 16-aligned) ones for even
+            // sizes, so that code with a fast path for aligned input sees both
+            let off = if l.align() == 1 && l.size() % 2 == 0 { 8 } else { l.align() };
+            (unsafe { Layout::from_size_align_unchecked(l.size() + 16, 16) }, off)
         } else {
             (l, 0)
         }
